@@ -87,6 +87,25 @@ def dump(top):
     owner = getattr(x, "__self__", None)
     return f"{repr(owner) if hasattr(owner, '_dsl') else '?'}::{getattr(x, '__name__', '?')}"
   D["upblk_calls"] = sorted((bk(b), sorted(mn(x) for x in v)) for b, v in calls.items() if v)
+  # identity: every object the metadata refers to must be the one its name denotes in THIS design (a stale object of a
+  # removed component has the same name as its successor)
+  refs = []
+  for b, v in list(rd.items()) + list(wr.items()) + list(calls.items()):
+    refs += [(f"upblk metadata of {bk(b)[1]}", x) for x in v]
+  for k, v in list(RD_U.items()) + list(WR_U.items()):
+    refs.append(("RD/WR constraint key", k))
+  for c in getattr(top._dsl, "all_M_constraints", ()):
+    refs += [("M constraint", x) for x in c[:2]]
+  stale = set()
+  for where, o in refs:
+    if hasattr(o, "_dsl") and hasattr(o, "get_parent_object"):
+      try:
+        live = eval("top" + repr(o)[1:], {"top": top})
+      except Exception:
+        live = None
+      if live is not o:
+        stale.add(f"{where}: {repr(o)}")
+  D["stale_objects_referenced"] = sorted(stale)
   D["method_nets"] = sorted((mn(w) if w is not None else None, sorted(repr(x) for x in net)) for w, net in top.get_all_method_nets())
   return D
 
@@ -236,6 +255,11 @@ class Wrap(Component):
     @update_once
     def up_deq():
       if s.q.deq.rdy(): s.got.append(s.q.deq())
+    s.nobs = 0
+    @update_once
+    def up_obs():
+      s.nobs = len(s.got)
+    s.add_constraints( M(s.q.deq) < U(up_obs) )          # the parent's own constraint on a method of the child
 class TopCL(Component):
   def construct(s, Q0, Q1, n):
     s.w = [Wrap(Q0, n), Wrap(Q1, n)]
@@ -332,6 +356,14 @@ class Chain(Component):
     for i in range(1, len(classes)):
       s.stage[i].in_ //= s.stage[i-1].out
     s.out //= s.stage[-1].out
+    # the parent's own explicit constraints on ports of a child
+    s.obs = OutPort(8)
+    @update
+    def up_obs(): s.obs @= s.stage[0].out
+    @update
+    def up_pre(): s.in_2 @= s.in_
+    s.in_2 = Wire(8)
+    s.add_constraints( WR(s.stage[0].out) < U(up_obs), RD(s.stage[0].in_) > U(up_pre) )
     if lb is not None:
       # a registered stage wired back onto itself BY THE PARENT (a counter)
       s.lb = lb[0](k=lb[1]); s.lbo = OutPort(8)
